@@ -31,17 +31,28 @@ def parse_expect(path):
     return exp
 
 
-def run_variant(prop, root, patch):
+class _Ob:
+    def __init__(self, rule, instance, status):
+        self.rule, self.instance, self.status = rule, instance, status
+
+
+class _Ctx:
+    def __init__(self, obs):
+        self.obs = obs
+
+
+def run_variant(args):
+    prop, root, patch = args
     from .driver import run_property
     d = scratch_copy(root)
     try:
         r = subprocess.run(['patch', '-p1', '-s', '-F3', '-d', d, '-i', patch], capture_output=True, text=True)
         if r.returncode != 0:
-            return 'inapplicable', r.stdout + r.stderr, None
+            return 'inapplicable', [r.stdout + r.stderr], None
         prog = ir.extract(d)
         lines = []
         code, ctx = run_property(prop, prog, 'quick', write=False, out=lines.append)
-        return code, lines, ctx
+        return code, [str(l) for l in lines], [(o.rule, o.instance, o.status) for o in ctx.obs]
     except ir.AnalysisBroken as e:
         return 2, [str(e)], None
     finally:
@@ -52,11 +63,15 @@ def run(prop, root='/repo', out=print):
     props = [prop] if prop != 'all' else sorted(os.path.basename(p) for p in glob.glob(os.path.join(SELF, 'C*')))
     bad = 0
     total = 0
-    for p in props:
-        for patch in sorted(glob.glob(os.path.join(SELF, p, '*.patch'))):
+    jobs = [(p, root, patch) for p in props for patch in sorted(glob.glob(os.path.join(SELF, p, '*.patch')))]
+    from concurrent.futures import ProcessPoolExecutor
+    with ProcessPoolExecutor(max_workers=min(8, max(1, len(jobs)))) as ex:
+        results = list(ex.map(run_variant, jobs))
+    for (p, _r, patch), (code, lines, obs) in zip(jobs, results):
+        if True:
             total += 1
             exp = parse_expect(patch)
-            code, lines, ctx = run_variant(p, root, patch)
+            ctx = _Ctx([_Ob(*o) for o in obs]) if obs is not None else None
             name = os.path.basename(patch)
             if code == 'inapplicable':
                 out('selftest %s/%s: SKIPPED (patch does not apply to the current tree)' % (p, name))
